@@ -1,5 +1,6 @@
-import G3D.Proofs.KernelsTie
-import G3D.Proofs.KernelsTieReal
+import G3D.Proofs.KTieKvecAngle
+import G3D.Proofs.KTieKvecOrth
+import G3D.Proofs.KTieKvecPar
 import G3D.Props.C11
 import G3D.Props.Classes
 #print axioms G3D.Props.C11.cosSq_in_range
@@ -15,11 +16,12 @@ import G3D.Props.Classes
 #print axioms G3D.Props.C11.parallel_dispatch
 #print axioms G3D.Props.C11.orthogonal_dispatch
 #print axioms G3D.Props.Classes.geobody_forwards
-#print axioms G3D.KernelsTie.orthogonal_iff
-#print axioms G3D.KernelsTie.orthogonal_shape
-#print axioms G3D.KernelsTieReal.parallel_cast
-#print axioms G3D.KernelsTieReal.parallel_shortcuts
-#print axioms G3D.KernelsTieReal.parallel_shape
-#print axioms G3D.KernelsTieReal.angle_cosSq
-#print axioms G3D.KernelsTieReal.angle_cosine_range
-#print axioms G3D.KernelsTieReal.angle_path
+#print axioms G3D.KTie.Kvec.orthogonal_iff
+#print axioms G3D.KTie.Kvec.orthogonal_shape
+#print axioms G3D.KTie.Kvec.parallel_cast
+#print axioms G3D.KTie.Kvec.parallel_shortcuts
+#print axioms G3D.KTie.Kvec.parallel_shape_main
+#print axioms G3D.KTie.Kvec.parallelShortcuts_paths
+#print axioms G3D.KTie.Kvec.angle_cosSq
+#print axioms G3D.KTie.Kvec.angle_cosine_range
+#print axioms G3D.KTie.Kvec.angle_path
